@@ -45,6 +45,12 @@ const INCLUDE_RECURSION_COST: usize = 10;
 #[cfg(feature = "macros")]
 const MACRO_RECURSION_COST: usize = 4;
 
+// the cost of a super call or of a block called from within a block or macro
+// against the stack limit.  Like a macro call or an include it is a nested run of the
+// interpreter loop.
+#[cfg(feature = "multi_template")]
+const BLOCK_RECURSION_COST: usize = 4;
+
 struct Executor<'env>(std::marker::PhantomData<&'env Environment<'env>>);
 
 #[cfg(feature = "multi_template")]
@@ -1021,7 +1027,16 @@ impl<'env> Executor<'env> {
             ));
         }
 
-        if let Err(err) = state.ctx.push_frame(Frame::default()) {
+        if let Err(err) = state
+            .ctx
+            .incr_depth(BLOCK_RECURSION_COST)
+            .and_then(|()| {
+                state.ctx.push_frame(Frame::default()).map_err(|err| {
+                    state.ctx.decr_depth(BLOCK_RECURSION_COST);
+                    err
+                })
+            })
+        {
             state.blocks.get_mut(name).unwrap().pop();
             return Err(err);
         }
@@ -1040,6 +1055,7 @@ impl<'env> Executor<'env> {
             |state| Self::eval_state(state, out),
         );
         state.ctx.pop_frame();
+        state.ctx.decr_depth(BLOCK_RECURSION_COST);
         state.blocks.get_mut(name).unwrap().pop();
 
         ok!(rv.map_err(|err| {
@@ -1097,7 +1113,15 @@ impl<'env> Executor<'env> {
             }
             let instructions = block_stack.instructions();
             let auto_escape = state.auto_escape;
-            state.with_execution_state(
+            // a block called from anywhere but the top level of a template
+            // (another block, a macro, ...) nests interpreter loops
+            let cost = if state.current_block.is_some() || state.ctx.depth() > 1 {
+                BLOCK_RECURSION_COST
+            } else {
+                0
+            };
+            ok!(state.ctx.incr_depth(cost));
+            let rv = state.with_execution_state(
                 instructions,
                 auto_escape,
                 Some(name),
@@ -1106,7 +1130,9 @@ impl<'env> Executor<'env> {
                     ok!(state.ctx.push_frame(Frame::default()));
                     Self::eval_state(state, out)
                 },
-            )
+            );
+            state.ctx.decr_depth(cost);
+            rv
         } else {
             Err(Error::new(
                 ErrorKind::UnknownBlock,
